@@ -491,26 +491,39 @@ fn rt_stream(sink: &mut CaseSink, seed: u64, thorough: bool) -> Value {
 }
 
 // ------------------------------------------------------------------ fault stream
-fn load_observed(bytes: &[u8]) -> String {
+/// (outcome of load_from_file, outcome of solving the loaded solver: "" = not attempted)
+fn load_observed(bytes: &[u8], solve: bool) -> (String, String) {
     let data = bytes.to_vec();
+    let (tx, rx) = std::sync::mpsc::channel::<String>();
     let r = watchdog(30, move || {
         let mut f = file_with(&data, &format!("ft{:?}", std::thread::current().id()).replace(|c: char| !c.is_alphanumeric(), ""));
-        let r = guarded(|| DefaultSolver::<f64>::load_from_file(&mut f, None).map(|_| ()).map_err(|e| e.to_string()));
-        r
+        let r = guarded(|| DefaultSolver::<f64>::load_from_file(&mut f, None).map_err(|e| e.to_string()));
+        match r {
+            None => None,
+            Some(Err(e)) => Some(Err(e)),
+            Some(Ok(mut s)) => {
+                let _ = tx.send("loaded".into());
+                if solve {
+                    let so = match guarded(|| { s.solve(); status_name(s.solution.status) }) { Some(st) => st, None => "panic".to_string() };
+                    Some(Ok(so))
+                } else { Some(Ok(String::new())) }
+            }
+        }
     });
     match r {
-        None => "hang".into(),
-        Some(None) => "panic".into(),
-        Some(Some(Ok(()))) => "ok".into(),
-        Some(Some(Err(e))) => format!("err:{}", e),
+        None => if rx.try_recv().is_ok() { ("ok".into(), "hang".into()) } else { ("hang".into(), String::new()) },
+        Some(None) => ("panic".into(), String::new()),
+        Some(Some(Ok(so))) => ("ok".into(), so),
+        Some(Some(Err(e))) => (format!("err:{}", e), String::new()),
     }
 }
 fn fault(sink: &mut CaseSink, seen: &mut HashSet<Vec<u8>>, base: &str, what: &str, bytes: Vec<u8>) {
     tick();
     if !seen.insert(bytes.clone()) { return; }
     let syntax_ok = serde_json::from_slice::<Value>(&bytes).is_ok();
-    let observed = load_observed(&bytes);
-    let mut rec = json!({"kind": "fault", "base": base, "mut": what, "syntax_ok": syntax_ok, "observed": observed});
+    // files of the settings near-miss stream are also solved after a successful load
+    let (observed, solved) = load_observed(&bytes, base.starts_with("settings:"));
+    let mut rec = json!({"kind": "fault", "base": base, "mut": what, "syntax_ok": syntax_ok, "observed": observed, "solve": solved});
     match String::from_utf8(bytes.clone()) {
         Ok(s) => { rec["text"] = json!(s); }
         Err(_) => { rec["hex"] = json!(bytes.iter().map(|b| format!("{:02x}", b)).collect::<String>()); }
@@ -718,8 +731,8 @@ fn fault_stream(sink: &mut CaseSink, seed: u64, thorough: bool) -> Value {
         text_level(sink, &mut seen, name, text);
     }
     fault(sink, &mut seen, "base2", "unchanged", b2.as_bytes().to_vec());
-    bytewise(sink, &mut seen, "base2", &b2, if thorough { 1 } else { 7 }, thorough);
-    structured(sink, &mut seen, "base2", &b2, if thorough { 1 } else { 9 });
+    bytewise(sink, &mut seen, "base2", &b2, if thorough { 1 } else { 11 }, thorough);
+    structured(sink, &mut seen, "base2", &b2, if thorough { 1 } else { 15 });
     text_level(sink, &mut seen, "base2", &b2);
     if thorough {
         fault(sink, &mut seen, "base3", "unchanged", b3.as_bytes().to_vec());
@@ -728,6 +741,70 @@ fn fault_stream(sink: &mut CaseSink, seed: u64, thorough: bool) -> Value {
         text_level(sink, &mut seen, "base3", &b3);
     }
     json!({"faults": sink.n - n0})
+}
+
+// ------------------------------------------------------------------ validator / consumer sites
+/// near-miss corruptions of an accepted name
+fn near_misses(name: &str) -> Vec<String> {
+    let mut v = vec![name.to_string(), String::new(), name.to_uppercase(), format!(" {}", name), format!("{} ", name),
+                     format!("\t{}", name), format!("{}\n", name), format!("{}x", name), format!("_{}", name), format!("{}\u{0}", name)];
+    let chars: Vec<char> = name.chars().collect();
+    for i in 0..chars.len() {
+        let mut c = chars.clone();
+        c[i] = if c[i].is_ascii_lowercase() { c[i].to_ascii_uppercase() } else { c[i].to_ascii_lowercase() };
+        v.push(c.iter().collect());
+        v.push(chars[..i].iter().collect());          // prefix truncation
+        v.push(chars[i + 1..].iter().collect());      // suffix
+        // Unicode look-alikes (Cyrillic / fullwidth)
+        let look = match chars[i] { 'a' => Some('\u{0430}'), 'o' => Some('\u{043e}'), 'e' => Some('\u{0435}'), 'c' => Some('\u{0441}'), 'p' => Some('\u{0440}'), 'q' => Some('\u{ff51}'), 'l' => Some('\u{ff4c}'), _ => None };
+        if let Some(l) = look { let mut c = chars.clone(); c[i] = l; v.push(c.iter().collect()); }
+    }
+    v
+}
+fn sites_stream(sink: &mut CaseSink) -> Value {
+    // tiny QP reaches get_ldlsolver_config; a tridiagonal PSD(4) problem reaches the merge-strategy match
+    let P1 = CscMatrix { m: 1, n: 1, colptr: vec![0, 1], rowval: vec![0], nzval: vec![2.0] };
+    let A1 = CscMatrix { m: 1, n: 1, colptr: vec![0, 1], rowval: vec![0], nzval: vec![-1.0] };
+    // svec positions of (0,0),(0,1),(1,1),(1,2),(2,2),(2,3),(3,3) in the 4x4 upper triangle
+    let rows = vec![0usize, 1, 2, 4, 5, 8, 9];
+    let A4 = CscMatrix { m: 10, n: 1, colptr: vec![0, rows.len()], rowval: rows.clone(), nzval: vec![1.0, 0.5, 1.0, 0.5, 1.0, 0.5, 1.0] };
+    let mut b4 = vec![0.0; 10];
+    for k in [0usize, 2, 5, 9] { b4[k] = 2.0; }
+    let mut count = 0;
+    let mut seen: HashSet<(usize, String)> = HashSet::new();
+    // the consumer of the merge method must actually be reached with a valid name
+    let mut st = DefaultSettings::<f64>::default();
+    st.verbose = false;
+    let reach = guarded(|| { let s = DefaultSolver::<f64>::new(&P1, &[1.0], &A4, &b4, &[SupportedConeT::PSDTriangleConeT(4)], st.clone()); clarabel::verif_hooks::c19::reduction_active(&s.data).1 }).unwrap_or(false);
+    sink.record(json!({"kind": "sites_meta", "merge_consumer_reached": reach}));
+    for (which, names) in [(0usize, vec!["auto", "qdldl", "faer", "foo"]), (1usize, vec!["none", "parent_child", "clique_graph", "foo"])] {
+        for nm in names {
+            for cand in near_misses(nm) {
+                if !seen.insert((which, cand.clone())) { continue; }
+                tick();
+                let mut st = DefaultSettings::<f64>::default();
+                st.verbose = false;
+                let builder_ok;
+                if which == 0 {
+                    st.direct_solve_method = cand.clone();
+                    builder_ok = DefaultSettingsBuilder::<f64>::default().direct_solve_method(cand.clone()).build().is_ok();
+                } else {
+                    st.chordal_decomposition_merge_method = cand.clone();
+                    builder_ok = DefaultSettingsBuilder::<f64>::default().chordal_decomposition_merge_method(cand.clone()).build().is_ok();
+                }
+                let validator = st.validate().is_ok();
+                let consumer = if which == 0 {
+                    guarded(|| { let _ = DefaultSolver::<f64>::new(&P1, &[1.0], &A1, &[-2.0], &[SupportedConeT::NonnegativeConeT(1)], st.clone()); }).is_some()
+                } else {
+                    guarded(|| { let _ = DefaultSolver::<f64>::new(&P1, &[1.0], &A4, &b4, &[SupportedConeT::PSDTriangleConeT(4)], st.clone()); }).is_some()
+                };
+                sink.record(json!({"kind": "sites", "which": which, "name": cand, "validator": validator, "builder": builder_ok, "consumer": consumer}));
+                sink.n += 1;
+                count += 1;
+            }
+        }
+    }
+    json!({"sites": count})
 }
 
 fn main() {
@@ -770,7 +847,8 @@ fn main() {
     } else {
         let st1 = rt_stream(&mut sink, seed, thorough);
         let st2 = fault_stream(&mut sink, seed, thorough);
-        sink.record(json!({"stats": {"roundtrip": st1, "fault": st2}}));
+        let st3 = sites_stream(&mut sink);
+        sink.record(json!({"stats": {"roundtrip": st1, "fault": st2, "sites": st3}}));
     }
     // the default settings as the implementation sees them (model's schema is checked against it)
     sink.record(json!({"kind": "defaults", "settings": settings_coq(&DefaultSettings::<f64>::default()),
